@@ -23,6 +23,8 @@ def run(ctx):
     lib_gatefn.gate_loops(ctx, P)
     from . import lib_kind3
     lib_kind3.error_codes(ctx, P)
+    from . import lib_kind2
+    lib_kind2.guard_seqlen(ctx, P)
     gate = set(lib_gatefn.GATE_FUNCS) | {"check_offsets", "tsk_treeseq_init"}
     seen = lib_guards.analyse(ctx, P, funcs=gate)
     lib_guards.presence(ctx, seen, funcs=gate, P=P)
